@@ -263,6 +263,45 @@ class NetProxy(Proxy):
 
 
 AEON_TEXT = {}
+VALIDATE_TABLES = True
+
+
+def validate_tables(real_bn, nctx, region):
+    """per-representative translation validation of a network handle produced by AEON (from_aeon / from_sbml /
+    percolate_network): every update function of the real object, evaluated on every state of its context, must
+    equal the representative's truth table restricted to the context's base space"""
+    if not VALIDATE_TABLES:
+        return
+    net = CTX.net
+    base = nctx[0]
+    try:
+        names = list(real_bn.variable_names())
+        if not names:
+            return
+        g = REAL["AsynchronousGraph"](real_bn)
+        idx = [net.names.index(nm) for nm in names]
+        for nm, v in zip(names, idx):
+            if base[v] is not None:
+                continue        # a variable fixed in the base space: its function is the constant (or the dynamics' verdict on a conflict)
+            f = g.mk_update_function(nm)
+            for vals in itertools.product((0, 1), repeat=len(names)):
+                x = [0 if b is None else b for b in base]
+                skip = False
+                for i, b in zip(idx, vals):
+                    if base[i] is not None and base[i] != b:
+                        skip = True
+                        break
+                    x[i] = b
+                if skip:
+                    continue
+                val = bool(f.r_restrict(dict(zip(names, vals))).is_true())
+                if CTX.ev(net.fval(v, tuple(x))) != val:
+                    CTX.mismatch.append((region, f"update function of {nm} differs from the network's in state {tuple(x)}"))
+                    return
+    except Unmodelled:
+        raise
+    except Exception as e:      # a network AEON cannot turn into a graph: leave it to the caller
+        CTX.log.append(("validate_tables", repr(e)))
 
 
 class FnProxy:
@@ -418,6 +457,7 @@ class _BNFacade:
             return r
         if text not in AEON_TEXT:
             raise Unmodelled("from_aeon on text that was not produced by to_aeon in this run")
+        validate_tables(r, AEON_TEXT[text], "from_aeon")
         return NetProxy(r, AEON_TEXT[text])
 
     @staticmethod
@@ -427,6 +467,7 @@ class _BNFacade:
             return r
         if "sbml:" + text not in AEON_TEXT:
             raise Unmodelled("from_sbml on text that was not registered by the harness")
+        validate_tables(r, AEON_TEXT["sbml:" + text], "from_sbml")
         return NetProxy(r, AEON_TEXT["sbml:" + text])
 
     @staticmethod
@@ -590,6 +631,7 @@ def w_percolate_network(bn, space, symbolic_network=None, remove_constants=False
         expect = {net.names[v] for v in netvars(nctx) if Rg[v] is None}
         if expect != rnames:
             CTX.mismatch.append(("percolate_network", f"variables {sorted(rnames)} != free variables {sorted(expect)}"))
+        validate_tables(r, (Rg, nctx[1]), "percolate_network")
         return NetProxy(r, (Rg, nctx[1]))
     else:
         real_sym = unwrap(symbolic_network) if symbolic_network is not None else REAL["AsynchronousGraph"](unwrap(bn))
@@ -628,16 +670,16 @@ def w_trappist(network, problem="min", reverse_time=False, solution_limit=None, 
         return REAL["trappist"](network, problem=problem, reverse_time=reverse_time, solution_limit=solution_limit if not isinstance(solution_limit, SymInt) else None,
                                 ensure_subspace=ensure_subspace, avoid_subspaces=avoid_subspaces,
                                 optimize_source_variables=optimize_source_variables)
-    if reverse_time:
-        raise Unmodelled("trappist(reverse_time=True) in coarse mode")
     nctx = nctx_of(network, ensure_subspace)
+    if reverse_time and (nctx[1] is not None or any(b is not None for b in nctx[0])):
+        raise Unmodelled("trappist(reverse_time=True) on a restricted network")
     net = CTX.net
     lim = solution_limit
     lim_c = None
     if lim is not None:
         lim_c = CTX.ev_int(lim.e) if isinstance(lim, SymInt) else int(lim)
     # the full answer of the real region (limit applied by us so that the canonical order resolution is exact)
-    full = REAL["trappist"](unwrap(network), problem=problem, reverse_time=False, solution_limit=None,
+    full = REAL["trappist"](unwrap(network), problem=problem, reverse_time=reverse_time, solution_limit=None,
                             ensure_subspace=ensure_subspace, avoid_subspaces=avoid_subspaces,
                             optimize_source_variables=optimize_source_variables)
     ens = gspace(nctx, {k: v for k, v in (ensure_subspace or {}).items()})
@@ -662,7 +704,7 @@ def w_trappist(network, problem="min", reverse_time=False, solution_limit=None, 
     got = set(_spaces_to_global(nctx, full))
     if len(got) != len(full):
         CTX.mismatch.append(("trappist", "duplicate answers"))
-    if hasattr(net, "trappist_obs") and nctx[1] is None and not avoid and problem in ("min", "max"):
+    if hasattr(net, "trappist_obs") and nctx[1] is None and not avoid and problem in ("min", "max") and not reverse_time:
         # modular network: the answer set is observed component-wise (products of component answers)
         obs, bad = net.trappist_obs(problem, nctx[0], ens_rel, srcs if problem == "max" else (), sorted(got, key=str))
         for b in bad:
@@ -670,7 +712,7 @@ def w_trappist(network, problem="min", reverse_time=False, solution_limit=None, 
         for fm, val, detail in obs:
             CTX.obs_eq(fm, val, "trappist", (problem, detail))
     else:
-        spec = net.trappist_spec(problem, nctx[0], nctx[1], ens_rel, srcs if problem == "max" else (), avoid)
+        spec = net.trappist_spec(problem, nctx[0], nctx[1], ens_rel, srcs if problem == "max" else (), avoid, reverse=bool(reverse_time))
         for M, fm in spec.items():
             CTX.obs_eq(fm, M in got, "trappist", (problem, M))
         for M in got:
@@ -679,7 +721,7 @@ def w_trappist(network, problem="min", reverse_time=False, solution_limit=None, 
     res = order(full)
     if lim is not None:
         def real_len(k):
-            return len(REAL["trappist"](unwrap(network), problem=problem, reverse_time=False, solution_limit=k,
+            return len(REAL["trappist"](unwrap(network), problem=problem, reverse_time=reverse_time, solution_limit=k,
                                         ensure_subspace=ensure_subspace, avoid_subspaces=avoid_subspaces,
                                         optimize_source_variables=optimize_source_variables))
         res = _truncate(res, lim, real_len, "trappist")
